@@ -159,6 +159,17 @@ def t_stepper_shapes(cls, D, N):
             r = raises(lambda: wrapped(jnp.ones(sh) * 0.1))
             if r is not True:
                 return False, f"{type(wrapped).__name__}({cls}) with C={C}, D={D}, N={N} did not raise ValueError for shape {sh} ({r})"
+    # the rejection must not depend on the calling context: traced states (jit, vmap over an outer batch, rollout) are validated too
+    import jax
+    import equinox as eqx
+    bads = shapes_for(C, D, N)[1:]
+    for sh in (bads[0], bads[-1]) if len(bads) > 1 else bads:
+        bad = jnp.ones(sh) * 0.1
+        for what, call in (("eqx.filter_jit", lambda: eqx.filter_jit(s)(bad)), ("jax.jit", lambda: jax.jit(lambda v: s(v))(bad)),
+                           ("jax.vmap", lambda: jax.vmap(s)(jnp.stack([bad, bad]))), ("rollout", lambda: ex.rollout(s, 2)(bad))):
+            r = raises(call)
+            if r is not True:
+                return False, f"{cls} with C={C}, D={D}, N={N}: a state of shape {sh} is not rejected under {what} ({r})"
     return True, ""
 
 
@@ -219,7 +230,25 @@ def t_generator_options(gen, D, lo, hi, std_one, max_one):
     return got == want, f"{gen}(D={D}, offset/mean range ({lo}, {hi}), std_one={std_one}, max_one={max_one}): {'rejected' if got else 'accepted'}, documented: {'invalid' if want else 'valid'}"
 
 
-TESTS = dict(generator_options=t_generator_options, stepper_shapes=t_stepper_shapes, poisson_shapes=t_poisson_shapes, dimension=t_dimension, nonlin_dimension=t_nonlin_dimension)
+def t_convection_channels(D, N, conservative):
+    """the multi-channel convection term needs exactly D channels: every other count (1 included) is rejected, also through step_fourier"""
+    ex, jnp = _ex()
+    dop = ex.spectral.build_derivative_operator(D, 3.0, N)
+    nl = ex.nonlin_fun.ConvectionNonlinearFun(D, N, derivative_operator=dop, dealiasing_fraction=2 / 3, scale=1.0, single_channel=False, conservative=conservative)
+    shape_hat = (N,) * (D - 1) + (N // 2 + 1,)
+    for C in sorted({1, D - 1, D + 1, 2 * D} - {D, 0}):
+        r = raises(lambda: nl(jnp.ones((C,) + shape_hat, dtype=complex)))
+        if r is not True:
+            return False, f"ConvectionNonlinearFun(D={D}, single_channel=False, conservative={conservative}) accepts {C} channels ({r})"
+        st = ex.stepper.Burgers(D, 3.0, N, 0.1, conservative=conservative)
+        r = raises(lambda: st.step_fourier(jnp.ones((C,) + shape_hat, dtype=complex)))
+        if r is not True:
+            return False, f"Burgers(D={D}, conservative={conservative}).step_fourier accepts {C} channels ({r})"
+    good = nl(jnp.ones((D,) + shape_hat, dtype=complex))
+    return good.shape == (D,) + shape_hat, f"well-shaped input returned {good.shape}"
+
+
+TESTS = dict(convection_channels=t_convection_channels, generator_options=t_generator_options, stepper_shapes=t_stepper_shapes, poisson_shapes=t_poisson_shapes, dimension=t_dimension, nonlin_dimension=t_nonlin_dimension)
 
 
 def witness(ctx):
@@ -238,6 +267,9 @@ def witness(ctx):
         for lo, hi in ranges:
             for so, mo in ((False, False), (True, False), (False, True), (True, True)):
                 ctx.check("generator_options", dict(gen=gen, D=1 + (ctx.seed + len(gen)) % 3 if gen != "RandomSineWaves1d" else 1, lo=lo, hi=hi, std_one=so, max_one=mo))
+    for D in (2, 3):
+        for cons in (False, True):
+            ctx.check("convection_channels", dict(D=D, N=6, conservative=cons))
     for D in (1, 2, 3):
         ctx.check("poisson_shapes", dict(D=D, N=6))
         for which in ("VorticityConvection2d", "VorticityConvection2dKolmogorov", "ProjectedConvection3d", "ProjectedConvection3dKolmogorov"):
